@@ -264,6 +264,7 @@ TARGETS = {
     "fence": ["targets/fence.cpp"],
     "comp": ["targets/comp.cpp"],
     "obj": ["targets/obj.cpp"],
+    "thr": ["targets/thr.cpp"],
 }
 
 
